@@ -21,7 +21,7 @@ REQUIRED_REACH = ["Circle.bounding_box", "Sphere.bounding_box", "Parallelogram.b
                   "Interval.bounding_box", "ShapelyPolygon.bounding_box", "UnionDomain.bounding_box", "CutDomain.bounding_box",
                   "IntersectionDomain.bounding_box", "ProductDomain.bounding_box", "Translate.bounding_box",
                   "Rotate.bounding_box", "BoundaryDomain.bounding_box", "NormalizationLayer.forward",
-                  "LHSSampler._create_lhs_in_bounding_box"]
+                  "LHSSampler._create_lhs_in_bounding_box", "TrimeshPolyhedron.bounding_box"]
 MIN_NONTRIVIAL = 40
 ASSUMPTIONS = ["accepted layouts: flat [2*dim] (must enclose all supplied rows) or one row per parameter row (must enclose that row)",
                "tightness is demanded only for primitives of positive measure at a single parameter row (tolerance 2e-5 L)"]
